@@ -339,6 +339,22 @@ func init() {
 		return append(a, shuffle(g, groups)...)
 	})
 	add("str mixed", 3, func(g *G) []string { return []string{"SETNX", g.Key(), g.Val()} })
+	// every single-type family meets keys of the other types under the names it uses (WRONGTYPE paths, type checks
+	// that come before or after another test)
+	add("list hash set bits", 2, func(g *G) []string {
+		k := g.Key()
+		switch g.R.Intn(5) {
+		case 0:
+			return []string{"SET", k, g.Val()}
+		case 1:
+			return []string{"RPUSH", k, "a", "b"}
+		case 2:
+			return []string{"HSET", k, "f", "v"}
+		case 3:
+			return []string{"SADD", k, "m"}
+		}
+		return []string{"DEL", k}
+	})
 	// every string command also meets keys of another type: a list, hash or set under a name the family uses, then SET
 	// with a combination of its options (NX / XX, GET, a deadline, KEEPTTL) and the commands that read it back
 	add("str", 3, func(g *G) []string {
